@@ -511,6 +511,9 @@ func runExec(c *Ctx) {
 				if viaClosure && caller.Parent() != nil && c.escapingClosure(caller) {
 					continue // body of a generated function (runs when the generated function is called, not now)
 				}
+				if viaClosure && caller == p.GeneratedBody() {
+					continue // the generated function's body written as a method
+				}
 				bad = core.FuncName(caller) + " at " + p.InstrPos(site)
 			}
 			c.R.Add("EXEC-X8", "who-may-call|"+what, what, p.Pos(target.Pos()), bad == "",
